@@ -59,6 +59,16 @@ def recognise(z):
     return out
 
 
+def from_gaussian(re, im):
+    """Normalised tuple of the EXACT Gaussian rational re + i*im (fractions.Fraction), or None if a
+    denominator is not a power of two (or exceeds 2^EMAX): no float, no tolerance."""
+    for e in range(EMAX + 1):
+        a, c = re * 2 ** e, im * 2 ** e
+        if a.denominator == 1 and c.denominator == 1:
+            return (int(a), 0, int(c), 0, e)
+    return None
+
+
 def recognise_matrix(m, rows, cols):
     """Token string `ok rows cols (a b c d e)*` of a numpy array (any shape with rows*cols
     entries, row-major) or None if some entry is not representable."""
